@@ -334,3 +334,46 @@ def reduced_once(O):
 def expected_is_programs(O):
     from . import C03, dri
     C03.zip_into_row(dri.WithRep(O, _c07_rep()))
+
+
+def _c07_value_rep():
+    """values whose high bits matter, bound to signals wide enough to show them"""
+    from . import dri, batteries as B_
+    S64 = [("in", "A", 64, 0), ("in", "B", 8, 0), ("out", "Y", 64)]
+    sc = [Scenario("A B Y\n((0-200) >> 1) ((0-200) >> 1) ((0-1) >> 60)\n((1 << 63) >> 63) 0 ((0-8) >> 2)\n", S64, default_answer=[0],
+                   expect={"row_inputs": [["-100", "156"], ["-1", "0"]], "row_expected": [["-1"], ["-2"]]},
+                   note=">> of a negative value into 64-bit signals keeps the sign")]
+    S4 = [("in", "I0", 4, 0), ("in", "I1", 4, 0), ("in", "I2", 4, 0), ("out", "Y", 8)]
+    sc.append(Scenario("I0 I1 I2 Y\nbits(3, 45) X\nbits(3, (0-3)) X\nbits(1, 7) bits(1, 6) bits(1, (0-1)) X\n", S4, default_answer=[0],
+                       expect={"row_inputs": [["1", "0", "1"], ["1", "0", "1"], ["1", "0", "1"]]},
+                       note="bits(k, v) with v wider than k bits into 4-bit inputs: every entry is one bit of v"))
+
+    def judge(obs, sc_):
+        return B_.literal_judge(obs, sc_)
+    return dri.Rep({"path": "value"}, sc, judge)
+
+
+@obligation("C07/program-value[bits]", profiles=("dev", "release"),
+            desc="the value a bits(k, e) group hands to each of its k columns is one bit of e (0 or 1) whatever the width of e - "
+                 "so what the signal's width reduction sees is the program's value, also on signals wider than one bit")
+def program_value_bits(O):
+    from . import C01, dri
+    C01.bits_expansion(dri.WithRep(O, _c07_value_rep()))
+
+
+@obligation("C07/program-value[shift]", profiles=("dev", "release"),
+            desc="BinOp::eval against the statement's semantics for all operands (>> arithmetic): the high bits of the program's "
+                 "64-bit value, which signals wider than 64-k bits receive unreduced, are the statement's")
+def program_value_shift(O):
+    from . import C08, dri
+    C08.binop_eval(dri.WithRep(O, _c07_value_rep()))
+
+
+def rep():
+    """battery used when an obligation cannot be decided on a changed tree (shape fallback)"""
+    from . import dri
+    a, b = _c07_value_rep(), _c07_rep()
+
+    def judge(obs, sc_):
+        return (a.judge if sc_ in a.battery else b.judge)(obs, sc_)
+    return dri.Rep({"path": "fallback"}, list(a.battery) + list(b.battery), judge)
